@@ -6,13 +6,11 @@ use crate::core::*;
 use crate::model::calendar as cal;
 use crate::model::fmt_spec::{render, Kind};
 use crate::model::instant::*;
-use astrolabe::{Date, DateTime, DateUtilities, Offset, OffsetUtilities, Time, TimeUtilities};
+use super::diff::*;
+use astrolabe::{Date, DateTime, Time, TimeUtilities};
 use serde_json::{json, Value};
 use std::str::FromStr;
 
-fn date_of(day: i64) -> Date {
-    Date::from_timestamp((day - cal::DAYS_TO_1970) * 86_400)
-}
 
 fn year_class(y: i64) -> &'static str {
     if y < 0 {
@@ -38,29 +36,48 @@ fn judge_date(rec: &mut Rec, day: i64) {
     let v = val_of(Kind::Date, day as i128 * D, 0);
     let disp = render(&v, "yyyy/MM/dd").unwrap();
     let iso = render(&v, "yyyy-MM-dd").unwrap();
+    let Some(x) = sane_date(day) else {
+        rec.bin(SKIP_START);
+        return;
+    };
+    // 1 = reads like the independently built Date of that day, 0 = differs, −1 = no trustworthy expected value
+    let same_day = |p: &Date| -> i8 {
+        match diff_date(p, day) {
+            Ok(DateDiff::Same) => 1,
+            Ok(DateDiff::Skip) => -1,
+            _ => 0,
+        }
+    };
     let r = trap(|| {
-        let x = date_of(day);
         let shown = x.to_string();
-        let parsed = Date::from_str(&iso).map(|p| p.timestamp() / 86_400 + cal::DAYS_TO_1970);
+        // "of the value": what the value's own format() shows for the documented default pattern
+        let disp_lib = x.format("yyyy/MM/dd");
+        let iso_lib = x.format("yyyy-MM-dd");
+        let parsed = Date::from_str(&iso).map(|p| same_day(&p)).map_err(|e| e.to_string());
         let js = serde_json::to_string(&x).map_err(|e| e.to_string());
-        let back = js.clone().and_then(|j| serde_json::from_str::<Date>(&j).map_err(|e| e.to_string())).map(|p| p.timestamp() / 86_400 + cal::DAYS_TO_1970);
-        (shown, parsed, js, back)
+        let back = js.clone().and_then(|j| serde_json::from_str::<Date>(&j).map_err(|e| e.to_string())).map(|p| same_day(&p));
+        (shown, disp_lib, iso_lib, parsed, js, back)
     });
     rec.api("Date: Display/FromStr/serde");
     let wit = |obs: Value| json!({"date": [y, m, d], "day": day, "model_display": disp, "model_iso": iso, "observed": obs});
     match r {
         Err(p) => rec.violation(format!("C20|date|Display/FromStr/serde|panic|{},{}", p.class, p.site()), || wit(p.to_json())),
-        Ok((shown, parsed, js, back)) => {
-            if shown != disp {
-                rec.violation(format!("C20|date|Display|wrong-text|{}", year_class(y)), || wit(json!(shown)));
+        Ok((shown, disp_lib, iso_lib, parsed, js, back)) => {
+            if shown != disp_lib {
+                rec.violation(format!("C20|date|Display|wrong-text|{}", year_class(y)), || wit(json!({"to_string": shown, "format(\"yyyy/MM/dd\")": disp_lib})));
+            }
+            if disp_lib != disp || iso_lib != iso {
+                rec.bin("note/format-differs-from-model(other-property)");
             }
             match parsed {
-                Ok(n) if n == day => {}
-                other => rec.violation(format!("C20|date|FromStr|does-not-read-yyyy-MM-dd|{}", year_class(y)), || wit(json!(format!("{:?}", other)))),
+                Ok(1) => {}
+                Ok(-1) => rec.bin(SKIP_EXPECTED),
+                other => rec.violation(format!("C20|date|FromStr|does-not-read-yyyy-MM-dd|{}", year_class(y)), || wit(json!(format!("{:?} (1 = the same date)", other)))),
             }
             match (&js, &back) {
-                (Ok(j), Ok(n)) if *n == day && *j == format!("\"{}\"", iso) => {}
-                _ => rec.violation(format!("C20|date|serde|round-trip-differs|{}", year_class(y)), || wit(json!({"json": js, "back": back}))),
+                (Ok(j), Ok(1)) if *j == format!("\"{}\"", iso_lib) => {}
+                (Ok(_), Ok(-1)) => rec.bin(SKIP_EXPECTED),
+                _ => rec.violation(format!("C20|date|serde|round-trip-differs|{}", year_class(y)), || wit(json!({"json": js, "back (1 = the same date)": back}))),
             }
         }
     }
@@ -75,29 +92,41 @@ fn judge_time(rec: &mut Rec, n: u64, off: i32) {
     rec.nontrivial(hash_i128s(&[n as i128, off as i128, 0x20]));
     let v = val_of(Kind::Time, n as i128, off);
     let hms = render(&v, "HH:mm:ss").unwrap();
+    let Some((t, _)) = sane_time(n, off) else {
+        rec.bin(SKIP_START);
+        return;
+    };
+    let local_secs = v.tod / 1_000_000_000;
     let r = trap(|| {
-        let t = Time::from_nanos(n).unwrap().set_offset(Offset::Fixed(off));
         let shown = t.to_string();
-        let parsed = Time::from_str(&hms).map(|p| (p.as_nanos(), time_offset_secs(&p)));
+        let hms_lib = t.format("HH:mm:ss");
+        let parsed = Time::from_str(&hms).map_err(|e| e.to_string()).map(|p| match diff_time(&p, local_secs * 1_000_000_000, 0) {
+            Ok(TDiff::Same) => 1i8,
+            Ok(TDiff::Skip) => -1,
+            _ => 0,
+        });
         let js = serde_json::to_string(&t).map_err(|e| e.to_string());
         let back = js.clone().and_then(|j| serde_json::from_str::<Time>(&j).map_err(|e| e.to_string())).map(|p| (p.format("HH:mm:ss"), p.as_nanos()));
-        (shown, parsed, js, back)
+        (shown, hms_lib, parsed, js, back)
     });
     rec.api("Time: Display/FromStr/serde");
     let wit = |obs: Value| json!({"time_as_nanos": n, "offset": off, "model_HH:mm:ss": hms, "observed": obs});
     match r {
         Err(p) => rec.violation(format!("C20|time|Display/FromStr/serde|panic|{},{}", p.class, p.site()), || wit(p.to_json())),
-        Ok((shown, parsed, js, back)) => {
-            if shown != hms {
-                rec.violation("C20|time|Display|wrong-text".to_string(), || wit(json!(shown)));
+        Ok((shown, hms_lib, parsed, js, back)) => {
+            if shown != hms_lib {
+                rec.violation("C20|time|Display|wrong-text".to_string(), || wit(json!({"to_string": shown, "format(\"HH:mm:ss\")": hms_lib})));
             }
-            let local_secs = v.tod / 1_000_000_000;
+            if hms_lib != hms {
+                rec.bin("note/format-differs-from-model(other-property)");
+            }
             match parsed {
-                Ok((pn, Some(0))) if pn == local_secs * 1_000_000_000 => {}
-                other => rec.violation("C20|time|FromStr|does-not-read-HH:mm:ss".to_string(), || wit(json!(format!("{:?}", other)))),
+                Ok(1) => {}
+                Ok(-1) => rec.bin(SKIP_EXPECTED),
+                other => rec.violation("C20|time|FromStr|does-not-read-HH:mm:ss".to_string(), || wit(json!(format!("{:?} (1 = the time written)", other)))),
             }
             match (&js, &back) {
-                (Ok(j), Ok((text, pn))) if *text == hms && *pn < 86_400_000_000_000 && *j == format!("\"{}\"", hms) => {}
+                (Ok(j), Ok((text, pn))) if *text == hms_lib && *pn < 86_400_000_000_000 && *j == format!("\"{}\"", hms_lib) => {}
                 _ => rec.violation("C20|time|serde|does-not-show-the-same-HH:mm:ss".to_string(), || wit(json!({"json": js, "back": format!("{:?}", back)}))),
             }
         }
@@ -119,30 +148,43 @@ fn judge_datetime(rec: &mut Rec, i: i128, off: i32) {
         Some(d) => d,
         None => return,
     };
+    let Some((dt, _)) = sane_value(i, off) else {
+        rec.bin(SKIP_START);
+        return;
+    };
+    let want = i.div_euclid(NS) * NS;
     let r = trap(|| {
-        let dt = mk_off(i, off);
         let shown = dt.to_string();
+        let disp_lib = dt.format("yyyy/MM/dd HH:mm:ss");
         let (js, back) = if serde_claim {
             let js = serde_json::to_string(&dt).map_err(|e| e.to_string());
-            let back = js.clone().and_then(|j| serde_json::from_str::<DateTime>(&j).map_err(|e| e.to_string())).map(|p| (read(&p), offset_secs(&p)));
+            let back = js.clone().and_then(|j| serde_json::from_str::<DateTime>(&j).map_err(|e| e.to_string())).map(|p| match diff_with_expected(&p, want, off) {
+                Ok(Diff::Same) => (1i8, String::new()),
+                Ok(Diff::Skip) => (-1, String::new()),
+                Ok(Diff::Differs(g, e)) => (0, format!("deserialized value reads {} but the original (to the second) reads {}", g.to_json(), e.to_json())),
+                Err(pn) => (0, format!("deserialized value unreadable: {}", pn.msg)),
+            });
             (Some(js), Some(back))
         } else {
             (None, None)
         };
-        (shown, js, back)
+        (shown, disp_lib, js, back)
     });
     rec.api("DateTime: Display/serde");
     let wit = |obs: Value| json!({"value_utc": show(i), "offset": off, "model_display": disp, "observed": obs});
     match r {
         Err(p) => rec.violation(format!("C20|datetime|Display/serde|panic|{},{}", p.class, p.site()), || wit(p.to_json())),
-        Ok((shown, js, back)) => {
-            if shown != disp {
-                rec.violation(format!("C20|datetime|Display|wrong-text|{}", year_class(y)), || wit(json!(shown)));
+        Ok((shown, disp_lib, js, back)) => {
+            if shown != disp_lib {
+                rec.violation(format!("C20|datetime|Display|wrong-text|{}", year_class(y)), || wit(json!({"to_string": shown, "format(\"yyyy/MM/dd HH:mm:ss\")": disp_lib})));
+            }
+            if disp_lib != disp {
+                rec.bin("note/format-differs-from-model(other-property)");
             }
             if serde_claim {
-                let want = i.div_euclid(NS) * NS;
                 match (&js, &back) {
-                    (Some(Ok(_)), Some(Ok((pi, po)))) if *pi == want && *po == Some(off) => {}
+                    (Some(Ok(_)), Some(Ok((1, _)))) => {}
+                    (Some(Ok(_)), Some(Ok((-1, _)))) => rec.bin(SKIP_EXPECTED),
                     _ => rec.violation("C20|datetime|serde|not-the-same-instant-to-the-second-and-offset".to_string(), || wit(json!({"json": format!("{:?}", js), "back": format!("{:?}", back), "expected_instant": show(want)}))),
                 }
             }
